@@ -62,7 +62,7 @@ def corr_cases_legendre(ctx, info, translated):
     the numerical lbasis.  Tolerance correspondence: the coefficients are snapped rationals (see vlib/c09_pp.py)."""
     cases = []
     rng = ctx.rng
-    for k, name in enumerate(info['names']['legendre']):
+    for k, name in enumerate(info['names']['legendre'] + info['names']['sqrt3']):
         tr = translated[name]
         for pt in dyadic_points(tr.dim, ctx.n(2, 5), rng):
             X = np.array([[float(c)] for c in pt])
@@ -70,7 +70,7 @@ def corr_cases_legendre(ctx, info, translated):
             for arg, idx in tr.scales.items():
                 full[idx] = Fr(float(np.sqrt(arg)))
             for i in range(len(tr.basis)):
-                out = c09_oracle.fresh(lambda: type(tr.elem)(tr.p)).lbasis(X, i)
+                out = c09_oracle.fresh(tr.factory).lbasis(X, i)
                 flat = []
                 for f in out:
                     flat += [Fr(float(v)) for v in np.asarray(f, dtype=float).reshape(-1)]
@@ -268,7 +268,7 @@ def run(ctx, only=None):
             lcases = corr_cases_legendre(ctx, info, translated)
             ctx.corr('lbasis_legendre', 'Require Import Base.C09_Poly Base.C09_PolyQ Model.C09_Elem Gen.C09_Elements.\n'
                      'From Coq Require Import List QArith.\nOpen Scope nat_scope.',
-                     '(elem_eval legendre_elements)', '(qs_close (1 # 1000000000))', lcases, per_file=300,
+                     '(elem_eval (legendre_elements ++ sqrt3_elements))', '(qs_close (1 # 1000000000))', lcases, per_file=300,
                      nontrivial=lambda r: True)
             ctx.sample({'kind': 'correspondence', 'element': cases[7][2][0], 'i': cases[7][2][1], 'point': cases[7][2][2],
                         'lbasis_fields_exact_dyadic': cases[7][1][:200]})
